@@ -19,6 +19,7 @@ package builder
 import (
 	"fmt"
 	"sort"
+	"strconv"
 	"strings"
 
 	"golang.org/x/exp/maps"
@@ -338,7 +339,10 @@ func newExplainer(fontInfo *sfnt.Font) *explainer {
 		a, b := cmap.CodeRange()
 		for r := a; r <= b; r++ {
 			gid := cmap.Lookup(r)
-			if gid != 0 {
+			// Only printable runes are written as strings: the escape
+			// sequences %q uses for the others (\u00ad, \x7f, ...) are not
+			// understood by the parser.
+			if gid != 0 && strconv.IsPrint(r) {
 				mappings[gid] = fmt.Sprintf("%q", string([]rune{r}))
 			}
 		}
